@@ -229,7 +229,18 @@ func (la *lenAnalysis) guardedLocally(info *types.Info, fd *ast.FuncDecl, parent
 					break
 				}
 				is, ok := st.(*ast.IfStmt)
-				if !ok || is.Else != nil || !endsInExitOrPanic(info, is.Body) {
+				if !ok || is.Else != nil {
+					continue
+				}
+				if !endsInExitOrPanic(info, is.Body) {
+					// `if len(P) == 0 { …; P made non-empty }`: both ways out of the statement have an element
+					if be, ok := ast.Unparen(is.Cond).(*ast.BinaryExpr); ok && be.Op == token.EQL {
+						if lp := lenOperand(info, be.X); lp != nil {
+							if v, ok := constInt(info, be.Y); ok && v == 0 && repairsEmptiness(info, is.Body, lp) && match([]lenFact{{path: lp, min: 1}}) {
+								return "after `if " + exprString(is.Cond) + "`, whose body makes the list non-empty"
+							}
+						}
+					}
 					continue
 				}
 				if match(la.facts(info, is.Cond, false)) {
@@ -920,4 +931,80 @@ func c04OpenAPINilSchemas(ctx *Ctx, r *Report) {
 		}
 	}
 	r.Floor("nil obligations on the OpenAPI schema funnel", 3)
+}
+
+// repairsEmptiness: the body of `if len(P) == 0 { … }` does not leave the function but ends with P made non-empty:
+// at the top level of the body, either `P = <literal with elements>`, or `root = &V` / `root = V` where V is a local
+// whose member path (the rest of P) was assigned a composite literal with at least one element (address-of allowed).
+// `P` may end in a call such as `.Slice()` on the member that holds the list.
+func repairsEmptiness(info *types.Info, body *ast.BlockStmt, p ast.Expr) bool {
+	p = ast.Unparen(p)
+	if c, ok := p.(*ast.CallExpr); ok && len(c.Args) == 0 {
+		if s, ok := ast.Unparen(c.Fun).(*ast.SelectorExpr); ok {
+			p = s.X // the list is held by the receiver of the accessor
+		}
+	}
+	root := rootIdent(p)
+	if root == nil {
+		return false
+	}
+	var suffix []string
+	for e := p; ; {
+		s, ok := ast.Unparen(e).(*ast.SelectorExpr)
+		if !ok {
+			break
+		}
+		suffix = append([]string{s.Sel.Name}, suffix...)
+		e = s.X
+	}
+	nonEmptyLit := func(e ast.Expr) bool {
+		e = ast.Unparen(e)
+		if u, ok := e.(*ast.UnaryExpr); ok && u.Op == token.AND {
+			e = ast.Unparen(u.X)
+		}
+		cl, ok := e.(*ast.CompositeLit)
+		return ok && len(cl.Elts) > 0
+	}
+	filled := map[types.Object]bool{} // locals whose <suffix> member holds a non-empty literal
+	repaired := false
+	for _, st := range body.List {
+		as, ok := st.(*ast.AssignStmt)
+		if !ok || len(as.Lhs) != 1 || len(as.Rhs) != 1 {
+			continue
+		}
+		lhs, rhs := ast.Unparen(as.Lhs[0]), ast.Unparen(as.Rhs[0])
+		// V.<suffix> = literal   /   P = literal
+		if nonEmptyLit(rhs) {
+			var names []string
+			e := lhs
+			for {
+				s, ok := ast.Unparen(e).(*ast.SelectorExpr)
+				if !ok {
+					break
+				}
+				names = append([]string{s.Sel.Name}, names...)
+				e = s.X
+			}
+			if id, ok := ast.Unparen(e).(*ast.Ident); ok && strings.Join(names, ".") == strings.Join(suffix, ".") {
+				if objOf(info, id) == objOf(info, root) {
+					repaired = true
+				} else {
+					filled[objOf(info, id)] = true
+				}
+			}
+		}
+		// root = &V / V
+		if id, ok := lhs.(*ast.Ident); ok && objOf(info, id) == objOf(info, root) {
+			v := rhs
+			if u, ok := v.(*ast.UnaryExpr); ok && u.Op == token.AND {
+				v = ast.Unparen(u.X)
+			}
+			if vid, ok := v.(*ast.Ident); ok {
+				repaired = filled[objOf(info, vid)]
+			} else {
+				repaired = false
+			}
+		}
+	}
+	return repaired
 }
